@@ -18,6 +18,7 @@ struct vs_choice_rec {
   uint16_t n;         // number of options
   uint8_t preempt;    // 1 if option 0 was "keep running the current thread" (so any other option is a preemption)
   uint8_t chosen;     // option taken
+  const char* tag;    // static string naming the scheduling point (valid in the forking parent too)
 };
 
 // Shared between the explorer (parent) and one execution (forked child).
@@ -46,6 +47,7 @@ void vs_point(const char* tag);                       // scheduling point
 void vs_block(vs_pred p, void* arg, const char* tag); // disabled until p(arg) != 0; re-evaluated at every point
 int vs_choose(int n, const char* tag);                // free (non-preemptive) n-way choice
 uint64_t vs_points(void);
+void vs_note_race(void);                              // called from __tsan_on_report: counted in vs_shared.user[3]
 
 #ifdef __cplusplus
 }
